@@ -300,6 +300,7 @@ CHECKS["C11"] = {
         RUNTIMEUNIT,
         # the RateLimiter filter's hot update (state kept for an unchanged rule, a changed effective policy applied): harness shared with C09
         {"name": "rlfilter", "pkg": "pkg/filters/ratelimiter", "test": "TestVerifC09filter", "workers": 8, "inject": [["pkg/filters/ratelimiter", "harness/C09/rlfilter"]]},
+        {"name": "gfupdate", "pkg": "pkg/object/globalfilter", "test": "TestVerifC11gf", "workers": 2},
     ],
 }
 
